@@ -309,17 +309,22 @@ struct ParsedFrame
     std::vector<ref::PlanMsg> msgs;
 };
 
-static bool parseStructure(const Built& b, const std::vector<Bytes>& frames, std::vector<ParsedFrame>& out)
+static bool parseStructure(const Built& b, const std::vector<Bytes>& frames, std::vector<ParsedFrame>& out, std::vector<size_t>* emptyFrames = nullptr)
 {
     size_t pi = 0;
     uint32_t po = 0;
-    for (auto& f : frames)
+    for (size_t fidx = 0; fidx < frames.size(); ++fidx)
     {
+        const Bytes& f = frames[fidx];
         ref::Walked wk = ref::walk(f);
         if (!wk.hdrOk)
             return false;
         if (wk.msgs.empty())
-            continue;   // C07's business
+        {
+            if (emptyFrames)
+                emptyFrames->push_back(fidx);
+            continue;
+        }
         ParsedFrame pf;
         pf.msgType = wk.fh.msgType;
         for (auto& m : wk.msgs)
@@ -344,11 +349,17 @@ static void oracleC08(W& w, const CaseSpec& c, const Built& b, const std::vector
     if (c.b.empty())
         return;
     std::vector<ParsedFrame> got;
-    if (!parseStructure(b, frames, got))
+    std::vector<size_t> emptyFrames;
+    if (!parseStructure(b, frames, got, &emptyFrames))
     {
         w.fail("structure-not-parsable", "the frames do not carry the batch's payload bytes as a sequence of slices (see C07)");
         return;
     }
+    // A frame without any message between / around the others: the next packet was not appended to the (empty) current frame although
+    // it fits it, or the segments of a packet are no longer in consecutive frames
+    if (!emptyFrames.empty())
+        w.fail("layout-differs-from-rules:frame-without-message",
+               fmt("frame %zu of %zu carries no message: the message that follows was put into a new frame instead of this one", emptyFrames[0], frames.size()));
     std::vector<ref::PlanPacket> pb;
     for (auto& s : b.eff)
         pb.push_back({s.mt, s.len});
